@@ -423,8 +423,8 @@ func c38programs(r *vrun.Run) []c38cfg {
 	)
 	var sel []c38cfg
 	for _, c := range out {
-		if r.Quick() == false && c.p == 2 && len(c.threads) <= 2 {
-			c.p = 3
+		if !r.Quick() {
+			c.p = 6 // with at most ~10 scheduling choices per execution this is every schedule
 		}
 		if c.thorough && r.Quick() {
 			continue
@@ -453,7 +453,7 @@ func TestVerif_C38(t *testing.T) {
 			}
 			vexp.Run(r, vexp.Prog{Name: c.name, Body: c38body(c),
 				Budget:  vsched.Budget{MaxPreempt: c.p, MaxDev: dev},
-				Delay:   vrun.Pick(r, 1, 2),
+				Delay:   vrun.Pick(r, 1, 0), // thorough: unbounded
 				Opts:    vsched.Options{Horizon: 5000, EarlyTimers: c.early},
 				Seconds: r.Remaining() / float64(len(cfgs)-ci)})
 		}
